@@ -96,10 +96,10 @@ Print Assumptions C11_empty_eos_adds_nothing.
    application/grpc): every HEADERS and DATA of both directions reaches its
    sink unchanged, the processor sees nothing; any code variant, any codecs. *)
 Theorem C11_non_grpc_untouched :
-  forall decomp comp v ops,
+  forall decomp comp v hc hs ops,
     forallb (fun o => negb (header_is_grpc o)) ops = true ->
-    run_ops decomp comp v pair0 ops = Some (map untouched ops).
-Proof. intros decomp comp v ops H. now apply non_grpc_untouched. Qed.
+    run_ops decomp comp v (pair_cfg hc hs) ops = Some (map untouched ops).
+Proof. intros decomp comp v hc hs ops H. now apply non_grpc_untouched. Qed.
 Print Assumptions C11_non_grpc_untouched.
 
 (* Streams created by ONE factory value are independent.  [run_session] runs
@@ -108,30 +108,31 @@ Print Assumptions C11_non_grpc_untouched.
    only its stream.  What stream [i] is shown / what reaches its sinks is
    exactly the run of stream [i]'s own ops alone ... *)
 Theorem C11_session_projection :
-  forall decomp comp v sops outs i,
-    run_session decomp comp v sess0 sops = Some outs ->
-    run_ops decomp comp v pair0 (ops_of i sops) = Some (outs_of i outs).
+  forall decomp comp v hc hs sops outs i,
+    run_session decomp comp v (sess_cfg hc hs) sops = Some outs ->
+    run_ops decomp comp v (pair_cfg hc hs) (ops_of i sops) = Some (outs_of i outs).
 Proof.
-  intros decomp comp v sops outs i H.
-  exact (session_projection decomp comp v sops sess0 outs i eq_refl H).
+  intros decomp comp v hc hs sops outs i H.
+  exact (session_projection decomp comp v sops (sess_cfg hc hs) outs i eq_refl H).
 Qed.
 Print Assumptions C11_session_projection.
 
 (* ... hence non-interference: it depends only on stream [i]'s own headers and
    frames, for all other streams and all interleavings (so every per-stream
    theorem above holds for each stream of a session, and a non-gRPC stream is
-   untouched whatever gRPC streams came before it). *)
+   untouched whatever gRPC streams came before it); [hc]/[hs] = which
+   directions the factory gives a processor. *)
 Theorem C11_streams_independent :
-  forall decomp comp v sops sops' outs outs' i,
-    run_session decomp comp v sess0 sops = Some outs ->
-    run_session decomp comp v sess0 sops' = Some outs' ->
+  forall decomp comp v hc hs sops sops' outs outs' i,
+    run_session decomp comp v (sess_cfg hc hs) sops = Some outs ->
+    run_session decomp comp v (sess_cfg hc hs) sops' = Some outs' ->
     ops_of i sops = ops_of i sops' -> outs_of i outs = outs_of i outs'.
 Proof. exact streams_independent. Qed.
 Print Assumptions C11_streams_independent.
 
 Theorem C11_session_total :
-  forall decomp comp v sops, run_session decomp comp v sess0 sops <> None.
-Proof. intros decomp comp v sops. apply session_total. Qed.
+  forall decomp comp v hc hs sops, run_session decomp comp v (sess_cfg hc hs) sops <> None.
+Proof. intros decomp comp v hc hs sops. apply session_total. Qed.
 Print Assumptions C11_session_total.
 
 (* The executable oracle evaluated on the real implementation's calls is the
@@ -396,7 +397,7 @@ Print Assumptions C11_headers_forwarded_verbatim.
    fresh adapter, whatever encoding was selected. *)
 Theorem C11_ops_level : forall decomp comp p d ms ds dl esl,
   (forall e' b, decomp e' (comp e' b) = Some b) ->
-  enabled p = true -> get_ad d p = st0 ->
+  has_proc d p = true -> enabled p = true -> get_ad d p = st0 ->
   wf decomp (get_enc d p) ms -> lens_fit decomp comp (get_enc d p) ms ->
   concat ds ++ dl = wire ms ->
   exists outs evs,
@@ -420,8 +421,8 @@ Example C11_ops_level_example :
   exists p, pair_after id_decomp id_comp repaired pair0
               [OpHeader CtoS [h "content-type" "application/grpc"; h "grpc-encoding" "deflate"]%string false;
                OpHeader StoC [h "content-type" "application/grpc"; h "grpc-encoding" "snappy"]%string false] = Some p /\
-            enabled p = true /\ get_ad StoC p = st0 /\ get_enc StoC p = Snappy /\ get_enc CtoS p = Deflate.
-Proof. eexists. vm_compute. auto. Qed.
+            has_proc StoC p = true /\ enabled p = true /\ get_ad StoC p = st0 /\ get_enc StoC p = Snappy /\ get_enc CtoS p = Deflate.
+Proof. eexists. vm_compute. repeat split. Qed.
 
 Example C11_non_grpc_example :
   let h (n v : string) := (list_ascii_of_string n, list_ascii_of_string v) in
@@ -449,3 +450,48 @@ Theorem C11_payload_slice_exact : forall (b : bytes) (n : N),
   length (firstn (N.to_nat n) b) = N.to_nat n /\ firstn (N.to_nat n) b ++ skipn (N.to_nat n) b = b.
 Proof. exact payload_split_exact. Qed.
 Print Assumptions C11_payload_slice_exact.
+
+(* ------------------------------------------------------------------ *)
+(* Factory configuration: (c2s, s2c) processors, either may be nil      *)
+(* ------------------------------------------------------------------ *)
+
+(* the side that has no processor: untouched, state unchanged *)
+Theorem C11_no_processor_untouched : forall decomp comp v p o,
+  has_proc (op_dir o) p = false ->
+  op_step decomp comp v p o = Some (p, untouched o, true).
+Proof. exact no_processor_untouched. Qed.
+Print Assumptions C11_no_processor_untouched.
+
+(* gRPC detection in every configuration: raised exactly by a content-type:
+   application/grpc on a HEADERS of a direction that has a processor --
+   whichever direction that is -- never lowered, never by DATA; the
+   configuration is constant.  (So a factory that observes responses only
+   still gets the stream enabled by the response HEADERS, and its processor
+   is shown the messages: [C11_ops_level] with [d = StoC].) *)
+Theorem C11_detection_step : forall decomp comp v p d hs es p' out c,
+  op_step decomp comp v p (OpHeader d hs es) = Some (p', out, c) ->
+  enabled p' = (enabled p || (has_proc d p && std_is_grpc hs)) /\
+  forall d', has_proc d' p' = has_proc d' p.
+Proof. exact detection_step. Qed.
+Print Assumptions C11_detection_step.
+
+Theorem C11_data_keeps_detection : forall decomp comp v p d b es p' out c,
+  op_step decomp comp v p (OpData d b es) = Some (p', out, c) ->
+  enabled p' = enabled p /\ forall d', has_proc d' p' = has_proc d' p.
+Proof. exact data_keeps_detection. Qed.
+Print Assumptions C11_data_keeps_detection.
+
+(* responses-only factory (nil, processor): the response HEADERS enable the
+   stream, the response processor is shown the message, the request side
+   passes untouched although it is a gRPC stream *)
+Example C11_responses_only_example :
+  let h (n v : string) := (list_ascii_of_string n, list_ascii_of_string v) in
+  let hq := [h "content-type" "application/grpc"]%string in
+  let hr := [h ":status" "200"; h "content-type" "application/grpc"]%string in
+  run_ops id_decomp id_comp repaired (pair_cfg false true)
+    [OpHeader CtoS hq false; OpData CtoS [zero; zero; zero; zero; one; "Q"]%char true;
+     OpHeader StoC hr false; OpData StoC [zero; zero; zero] false; OpData StoC [zero; one; "R"]%char false]
+  = Some [[SHeader CtoS hq false]; [SData CtoS [zero; zero; zero; zero; one; "Q"]%char true];
+          [PHeader StoC hr false; SHeader StoC hr false]; [];
+          [PMsg StoC (Some ["R"%char]) false; SData StoC [zero; zero; zero; zero; one; "R"]%char false]].
+Proof. vm_compute. reflexivity. Qed.
